@@ -581,6 +581,15 @@ def wl_history(rng, rec, tier):
             d = x.phys_dim(i)
             U = rand_unitary(rng, d, cdt)
             out = att(x.gate, U, i, contract=True, info=info)
+        elif op == "gate1_nonunitary":
+            # a non-unitary one-site operator (projector / exp(-tau h)) contracted
+            # into a site away from the centre voids the caller's record - the
+            # caller drops it - but no tensor may stay *flagged* isometric
+            d = x.phys_dim(i)
+            G = gen.rand_array(rng, (d, d), cdt)
+            out = att(x.gate, G, i, contract=True)
+            info.clear()
+            info["cur_orthog"] = "calc" if rng.random() < 0.5 else None
         elif op in ("gate2_swap", "gate2_nonlocal", "gate2_auto"):
             if i == j:
                 continue
@@ -718,12 +727,13 @@ def wl_history(rng, rec, tier):
         rec.busy = True
         try:
             check_record(rec, x, info, "history:" + op, clause="caller_object")
+            check_flags(rec, x, "history:" + op)
         finally:
             rec.busy = False
     return {"L0": len(phys), "dtype": dtype, "ops": names[:30]}
 
 
-OPS = ["canonicalize", "canonicalize", "compress_site", "gate1", "gate2_swap", "gate2_nonlocal",
+OPS = ["canonicalize", "canonicalize", "compress_site", "gate1", "gate1_nonunitary", "gate2_swap", "gate2_nonlocal",
        "gate2_auto", "gate_split", "swap", "submpo", "measure", "sample", "query", "query", "query"]
 
 
